@@ -1,5 +1,13 @@
 # Per-property check configuration for ./check (entries = harness entry functions in /verif/harness).
 PROPS = {
+    "C01": {
+        "quick": {"entries": ["H_C01_Step"]},
+        "thorough": {"entries": ["H_C01_Step"]},
+        "covers": {"H_C01_Step": ["c01.older", "c01.equal", "c01.newer"]},
+        "bounds": {"names": 3, "meta_len": "0..1", "steps": "1 (inductive from an arbitrary state satisfying the representation invariant)"},
+        "outside": ["metrics", "msgpack bytes (token model)", "accusations at incarnation 2^32-1 about the local node (excluded by C02's statement)"],
+        "assumptions": ["representation invariant: Suspect record <=> suspicion timer exists; local record Alive with Incarnation == m.incarnation"],
+    },
     "C11": {
         "quick": {"entries": ["H_C11_CompoundRoundTrip", "H_C11_DecodeHostile"]},
         "thorough": {"entries": ["H_C11_CompoundRoundTrip", "H_C11_DecodeHostile"]},
